@@ -248,7 +248,9 @@ func (v *Val) writeYAML(b *strings.Builder, depth int, inline bool) {
 			b.WriteString("-.inf")
 		case math.IsNaN(v.N):
 			b.WriteString(".nan")
-		case math.Abs(v.N) >= 9.2e18 && v.N == math.Trunc(v.N):
+		case math.Abs(v.N) >= 9.2e18 && v.N == math.Trunc(v.N) && v.N != 18446744073709551615:
+			// (the largest uint64 stays a bare integer: YAML readers hand it
+			// over as an unsigned number, which jd refuses)
 			// beyond int64 a bare integer is a uint64 (or nothing) to YAML
 			// readers; written with an exponent it is a float
 			b.WriteString(strconv.FormatFloat(v.N, 'e', -1, 64))
@@ -465,9 +467,11 @@ var (
 	plainKeys   = []string{"a", "b", "c", "d", "id", "name", "x", "y"}
 	awkwardKeys = []string{"", "a/b", "~t", "0", "-", "ü", "k e", "a~1b", "1e3", "true", "null", "a.b", "\"q\"", "<<",
 		// keys that differ only by zero padding, or that order differently as numbers and as strings
-		"7", "07", "007", "10", "6x", "1.1", "1.01", "v7", "v07", "9223372036854775808"}
+		"7", "07", "007", "10", "6x", "1.1", "1.01", "v7", "v07", "9223372036854775808",
+		// control characters and escape sequences in a key
+		"k\u0001", "esc\u001b[0m", "del\u007f", "vt\u000b", "\U0001F9FF"}
 	plainStrs   = []string{"a", "b", "c", "foo", "bar", "x y", "50%"}
-	awkwardStrs = []string{"the quick brown fox jumps over the lazy dog and keeps on running far beyond the eightieth column of the page", "90%", "%s %d %v", "100%!", "line one\nline two\n", "tail\n", strings.Repeat("日本語のテキスト", 5), strings.Repeat("Привет мир ", 4), strings.Repeat("é", 70), "", "\"", "\\", "\n", "\t", "\u0001", "é", "日本", "😀", "<>&", "a\nb", "true", "1", "1e3", "~", "null", "- x", "a: b", "#", " lead", "trail ", "@ [", "+ 1", "^ {}", "next\u0085line", "del\u007f", "\u2028sep", "c1\u009f", "\ufffe", "bom\ufeff"}
+	awkwardStrs = []string{"the quick brown fox jumps over the lazy dog and keeps on running far beyond the eightieth column of the page", "90%", "%s %d %v", "100%!", "line one\nline two\n", "tail\n", strings.Repeat("日本語のテキスト", 5), strings.Repeat("Привет мир ", 4), strings.Repeat("é", 70), "", "\"", "\\", "\n", "\t", "\u0001", "é", "日本", "😀", "<>&", "a\nb", "true", "1", "1e3", "~", "null", "- x", "a: b", "#", " lead", "trail ", "@ [", "+ 1", "^ {}", "{\"html\":\"\\u003cb\\u003e\"}", "a\\u0026b", "\\u003c", "next\u0085line", "del\u007f", "\u2028sep", "c1\u009f", "\ufffe", "bom\ufeff"}
 	symbols     = []float64{1, 2, 3}
 )
 
@@ -526,6 +530,10 @@ func genScalar(c *Chooser, g GenCfg) *Val {
 		return vn(float64(c.Range(-2, 9)))
 	case 1:
 		if c.Int(1000) < g.Awkward {
+			if c.Chance(1, 40) {
+				// a text above a thousand characters (a certificate, a log excerpt)
+				return vs(strings.Repeat([]string{"ab", "lorem ipsum ", "é", "1.0."}[c.Int(4)], 1100/[]int{2, 12, 1, 4}[c.Int(4)]+c.Int(40)))
+			}
 			return vs(pickStr(c, awkwardStrs))
 		}
 		return vs(pickStr(c, plainStrs))
@@ -707,7 +715,20 @@ func edit(c *Chooser, g GenCfg, v *Val) *Val {
 			if len(n.Keys) > 0 {
 				i := c.Int(len(n.Keys))
 				if n.Keys[i] != "id" || !g.UniqueIDs {
-					n.Vals[i] = genVal(c, g, g.MaxDepth-1)
+					if old := n.Vals[i]; old.K == 's' && len(old.S) > 0 && c.Chance(1, 2) {
+						// a text grows at its end (or loses its last character)
+						r := []rune(old.S)
+						switch c.Int(3) {
+						case 0:
+							n.Vals[i] = vs(old.S + string(r[len(r)-1]))
+						case 1:
+							n.Vals[i] = vs(old.S + ".0")
+						default:
+							n.Vals[i] = vs(string(r[:len(r)-1]))
+						}
+					} else {
+						n.Vals[i] = genVal(c, g, g.MaxDepth-1)
+					}
 				}
 			}
 		default: // change the type of a value
@@ -845,6 +866,46 @@ func perturb(c *Chooser, v *Val, eps float64) *Val {
 	}
 	walk(v)
 	return v
+}
+
+// straddle rewrites numbers of both documents in step: a number and its
+// counterpart end up on either side of a common base (zero, or the number's
+// own value), a little less or a little more than the tolerance apart. An
+// implementation of the tolerance that buckets, truncates or rounds gets such
+// pairs wrong in one direction or the other.
+func straddle(c *Chooser, a, b *Val, eps float64) (*Val, *Val) {
+	a, b = a.clone(), b.clone()
+	var walk func(x, y *Val)
+	walk = func(x, y *Val) {
+		if x == nil || y == nil || x.K != y.K {
+			return
+		}
+		switch x.K {
+		case 'n':
+			if c.Chance(1, 2) {
+				base := x.N
+				if c.Chance(1, 2) {
+					base = 0
+				}
+				d := [][2]float64{{0.6, 0.7}, {0.4, 0.4}, {0.5, 0.5}, {0.8, 0.45}, {0.3, 0.9}}[c.Int(5)]
+				x.N, y.N = base-d[0]*eps, base+d[1]*eps
+			}
+		case 'o':
+			for i, k := range x.Keys {
+				if w, ok := y.get(k); ok {
+					walk(x.Vals[i], w)
+				}
+			}
+		case 'a':
+			for i := range x.Elems {
+				if i < len(y.Elems) {
+					walk(x.Elems[i], y.Elems[i])
+				}
+			}
+		}
+	}
+	walk(a, b)
+	return a, b
 }
 
 // idVal builds an identity value of the given kind for ordinal i.
